@@ -236,6 +236,8 @@ class World:
         world = self
 
         def wrapper(*a, **kw):
+            if world.dead:
+                raise Crash()
             if world.in_engine is None or world._nested:
                 return orig(*a, **kw)
             world.api_count += 1
@@ -551,6 +553,62 @@ class World:
             out["entries"].append(str(e.pretty_tuple(use_sigs=False)))
         return out
 
+    # ------------------------------------------------------------------ restart / crash support
+    def stop_engine(self):
+        """the process goes away between two steps (or died): drop every engine object, keep storage and providers"""
+        try:
+            self.cs.smgr.done()         # only removes the temp directory
+        except Exception:
+            pass
+        env.release_guard(self.provs)
+        for p in self.provs:
+            p._root_path = None
+            p._root_oid = None
+            p._cursor = p._latest_cursor      # a fresh client starts at "now" unless it restores a stored cursor
+            if not p.connected:
+                try:
+                    p.reconnect()
+                except Exception:
+                    pass
+        self.dead = False
+        self.fault = None
+        self.in_engine = None
+
+    def restart(self, mode="intact"):
+        st = self.storage
+        if st is not None and mode != "intact":
+            for (tag, eid) in list(st.rows):
+                if "_cursor" in tag:
+                    if mode == "nocursor":
+                        del st.rows[(tag, eid)]
+                    elif mode == "badcursor":
+                        st.rows[(tag, eid)] = "rejected-by-provider"
+        if st is not None:
+            st.gate = None
+        self._build_cs()
+
+    def prompt_run(self, limit=400):
+        """default schedule: first state-changing action in the order IL, IR, S, UL, UR; returns the history"""
+        hist = []
+        k = self.key()
+        for _ in range(limit):
+            progressed = False
+            for a in [x for x in ENGINE] + [x for x in self.actions() if x not in ENGINE]:
+                if a not in self.actions():
+                    continue
+                self.act(a)
+                k2 = self.key()
+                if k2 != k:
+                    hist.append(a)
+                    k = k2
+                    progressed = True
+                    break
+            if not progressed:
+                return hist
+        raise NoQuiescence("prompt schedule did not go quiet within %d steps" % limit)
+
+    dead = False
+
     def close(self):
         if self.closed:
             return
@@ -564,6 +622,11 @@ class World:
 
 class NoQuiescence(Exception):
     pass
+
+
+class Crash(BaseException):
+    """the process dies here (never caught by `except Exception`)"""
+    _vmc_crash = True
 
 
 def _true():
